@@ -409,10 +409,14 @@ func (c *Client) recv(keepaliveQuit chan<- struct{}) {
 		switch packet := val.(type) {
 		case stanza.StreamError:
 			c.router.route(c, val)
+			// A stream error ends the stream (RFC 6120, 4.9.1.1): nothing more is read from it. Our side is
+			// closed before the application is told: its handler may reconnect at once (StreamManager does),
+			// and whatever is done to the transport after that would be done to the new connection.
+			c.transport.ReceivedStreamClose()
+			c.Disconnect()
 			c.streamError(packet.Error.Local, packet.Text)
 			c.ErrorHandler(errors.New("stream error: " + packet.Error.Local))
-			// We don't return here, because we want to wait for the stream close tag from the server, or timeout.
-			c.Disconnect()
+			return
 		// Process Stream management nonzas
 		case stanza.SMRequest:
 			answer := stanza.SMAnswer{XMLName: xml.Name{
